@@ -70,10 +70,36 @@ class Driver:
                         {"op": "load", "slot": 3 - t, "img": m, "sel": "rows"}])
         return out
 
+    def enabled(self, op):
+        """the enabling condition of the corresponding Alos2 action, on the driver's own bookkeeping"""
+        k = op["op"]
+        if k == "load":
+            return op["slot"] in self.live
+        if k == "mutate":
+            return op["img"] in self.live.get(op["slot"], ())
+        if k in ("copy", "drop"):
+            return op["slot"] in self.live
+        if k == "redeliver":
+            return f"{op['loc']}{op['ver']}" != self.cur[op["loc"]]
+        if k == "damage":
+            return op["file"] not in self.dmg[op["loc"]] and not (op["file"] == "summary" and op["how"] == "cut")
+        if k == "restore":
+            return bool(self.dmg[op["loc"]])
+        if k in ("block", "purge") or (k in ("tear", "delete") and op.get("cell") == "local"):
+            return self.cache_ok
+        if k == "cachedir":
+            return op["usable"] != self.cache_ok
+        if k == "copyto":
+            return op["loc"] != op["dst"]
+        return True
+
     def next_op(self):
         r = self.r
-        if getattr(self, "queue", None):
-            return self.queue.pop(0)
+        while getattr(self, "queue", None):
+            op = self.queue.pop(0)
+            if self.enabled(op):
+                return op
+            self.queue = []  # the motif lost its footing (an open in it failed, a file is damaged, ...): back to random steps
         if r.random() < 0.07:
             ms = self.motifs()
             if ms:
@@ -296,6 +322,7 @@ def validate(chk, results, own, path):
     if len(verdicts) != len(results):
         raise checklib.Machinery(f"Trace_Alos2: {len(verdicts)} verdicts for {len(results)} traces\n" + r.out[-1500:])
     drift, others = 0, {}
+    desync = []
     resyncs = [(int(a), int(b)) for a, b in re.findall(r'<<"RESYNC", (\d+), (\d+)>>', r.out)]
     for tid_, line_ in resyncs[:3]:
         k_ = line_ - start[tid_]
@@ -307,7 +334,9 @@ def validate(chk, results, own, path):
         for line, clause in bads:
             k = line - start[tid]  # 1-based line within the trace (hdr = 1)
             if clause.startswith("not-enabled"):
-                raise checklib.Machinery(f"Trace_Alos2: trace {tid} line {k}: the driver issued an operation the specification does not enable: {res['lines'][k - 2]}")
+                # the driver's bookkeeping and the specification disagree about what can be done next: the rest of this trace is not judged
+                desync.append(f"trace {tid} line {k}: {res['lines'][k - 2]}")
+                break
             if clause.startswith("drift:"):
                 drift += 1
                 continue
@@ -321,6 +350,10 @@ def validate(chk, results, own, path):
                                   {"task": res["task"], "history": short, "category": c, "clause": clause})
                 else:
                     others[c] = others.get(c, 0) + 1
+    if desync:
+        chk.note(f"recorded sessions: {len(desync)} trace(s) not judged beyond a step the specification does not enable (driver bookkeeping): {desync[0][:300]}")
+        if len(desync) * 2 > len(results):
+            raise checklib.Machinery(f"Trace_Alos2: {len(desync)} of {len(results)} recorded sessions left the specification's enabling conditions: {desync[:2]}")
     return verdicts, drift, others
 
 
